@@ -282,6 +282,18 @@ class SymArray:
     def T(self):
         return self.transpose()
 
+    def conj(self):
+        """entrywise complex conjugate: flips the conj flag of every entry"""
+        old = self
+
+        def g(idx):
+            e = old.get(idx)
+            if isinstance(e, Entry):
+                return Entry(e.name, e.idx, not e.conj)
+            raise Unsupported("conjugate of a non-entry")
+
+        return SymArray(self.shape, g, self.kind)
+
 
 def arange(n):
     return SymArray((n,), lambda idx: as_num(idx[0], n), kind="index")
